@@ -573,6 +573,10 @@ def gen_cycles(rng):
             t = new()
             edges.append([host, t])
         sel_raw.append((t, [new() for _ in range(rng.choice([1, 2, 2]))]))
+    if rng.random() < 0.4:
+        # a forced (single-option) choice on the start node whose option is a ring node: the ring is permanent through it,
+        # whatever the two main choices take (the analysis of the ring is then requested from several entry points)
+        sel_raw.append((0, [rng.choice(ring + extra)]))
     n = nid[0] + 1
     sel = [{'id': n + kk, 'origin': org, 'options': opts} for kk, (org, opts) in enumerate(sel_raw)]
     case = {'n': n, 'edges': edges, 'sel': sel, 'start': [0], 'incompat': [], 'cons': []}
